@@ -323,25 +323,26 @@ Variable pf : bytes -> option N.
 
 Lemma propose_first_spec args n a :
   propose_first args = LProp n a ->
-  exists k k' rest, args = n :: k :: rest /\ a = n :: k' :: rest.
+  exists k k' rest, args = n :: k :: rest /\ a = n :: k' :: rest /\ cut_ns k = Some k'.
 Proof.
   destruct args as [|n0 [|k rest]]; simpl; try discriminate.
-  destruct (cut_ns k) as [k'|]; [|discriminate]. intro H. inversion H; subst. eauto.
+  destruct (cut_ns k) as [k'|] eqn:E; [|discriminate]. intro H. inversion H; subst. eauto 7.
 Qed.
 Lemma propose_first_len args n a : propose_first args = LProp n a -> length a = length args.
-Proof. intro H. apply propose_first_spec in H. destruct H as (k & k' & rest & -> & ->). reflexivity. Qed.
+Proof. intro H. apply propose_first_spec in H. destruct H as (k & k' & rest & -> & -> & _). reflexivity. Qed.
 
 (* the relation every proposal satisfies *)
 Definition prop_ok (g : aspec) (geo : bool) (args : list bytes) (n : bytes) (a : list bytes) : Prop :=
-  sat g (length a) = true /\ (exists tl, a = n :: tl) /\
+  sat g (length a) = true /\
+  (exists k' rest, a = n :: k' :: rest /\ cut_ns (arg args 1) = Some k') /\
   (if geo then n = B "zadd" else lower n = lower (hd [] args)).
 
 Lemma prop_ok_first g args n a :
   propose_first args = LProp n a -> sat g (length args) = true -> prop_ok g false args n a.
 Proof.
   intros H Hs. pose proof (propose_first_len _ _ _ H) as Hl.
-  apply propose_first_spec in H. destruct H as (k & k' & rest & -> & ->).
-  repeat split; [exact Hs|eexists; reflexivity].
+  apply propose_first_spec in H. destruct H as (k & k' & rest & -> & -> & Hc).
+  split; [exact Hs|]. split; [|reflexivity]. exists k', rest. split; [reflexivity|exact Hc].
 Qed.
 
 Ltac destr_in H :=
@@ -440,10 +441,11 @@ Lemma spec_geoadd args n a : geoaddCommand pf args = LProp n a -> prop_ok (mkA 2
 Proof.
   unfold geoaddCommand. intro H. destr_in H.
   pose proof (propose_first_len _ _ _ H) as Hl. rewrite zadd_of_members_len in Hl.
-  apply propose_first_spec in H. destruct H as (k & k' & rest & Hz & ->).
+  apply propose_first_spec in H. destruct H as (k & k' & rest & Hz & -> & Hc).
   unfold zadd_of_members in Hz. inversion Hz; subst.
-  repeat split; [|eexists; reflexivity].
-  apply sat_intro; cbn [lo hi par]; [lia|exact I|]. rewrite Hl. apply even_2k.
+  split; [|split; [|reflexivity]].
+  - apply sat_intro; cbn [lo hi par]; [lia|exact I|]. rewrite Hl. apply even_2k.
+  - eexists _, _. split; [reflexivity|exact Hc].
 Qed.
 
 (* every known wrapper / handler keeps its guarantee *)
@@ -612,7 +614,8 @@ Proof.
       pose proof (proj1 (forallb_forall _ _) table_ok r Hin) as Hok.
       unfold entry_ok in Hok. rewrite Hk in Hok.
       destruct (guar_write (r_wrap r) (r_params r)) as [g|] eqn:Hg; [|discriminate].
-      destruct (leader_write_spec pf _ _ _ _ _ _ _ Hg Hl) as (Hs & Htl & Hn).
+      destruct (leader_write_spec pf _ _ _ _ _ _ _ Hg Hl) as (Hs & (k' & rest' & Ha & _) & Hn).
+      assert (Htl : exists tl, a = hd [] a :: tl) by (exists (k' :: rest'); exact Ha).
       apply apply_ok_sound with (g := g) (key := B (applied_name r)) (n := hd [] a); auto.
       unfold applied_name.
       destruct (gname_eqb (r_wrap r) "direct" && gname_eqb (param (r_params r) 0) "geoaddCommand").
@@ -636,7 +639,47 @@ Proof.
     pose proof (proj1 (forallb_forall _ _) table_ok r Hin) as Hok.
     unfold entry_ok in Hok. rewrite Hk in Hok.
     destruct (guar_write (r_wrap r) (r_params r)) as [g|] eqn:Hg; [|discriminate].
-    destruct (leader_write_spec pf _ _ _ _ _ _ _ Hg Hl) as (_ & [tl ->] & _). reflexivity.
+    destruct (leader_write_spec pf _ _ _ _ _ _ _ Hg Hl) as (_ & (k' & rest' & -> & _) & _). reflexivity.
+Qed.
+
+(* ---------- the RedisV2Req encoding ---------- *)
+Lemma proposed_single_shape pf ns args f a :
+  is_merge_command (lower (hd [] args)) = false ->
+  proposed pf ns args f = Some a ->
+  exists n k' rest, a = n :: k' :: rest /\ cut_ns (arg args 1) = Some k'.
+Proof.
+  intros Hm. unfold proposed, handle.
+  destruct args as [|name0 rest]; [discriminate|].
+  cbn [hd] in Hm. rewrite Hm.
+  set (args := name0 :: rest). set (name := lower name0).
+  destruct (Nat.ltb (alen args) 2).
+  { destruct (find_reg KRead name reg_table); discriminate. }
+  destruct (extract_ns (arg args 1)) as [[ns1 k1]|].
+  2:{ destruct (find_reg KRead name reg_table); discriminate. }
+  destruct (find_reg KRead name reg_table); [discriminate|].
+  destruct (negb (bytes_eqb ns1 ns)); [discriminate|].
+  destruct (find_reg KWrite name reg_table) as [r|] eqn:Hr; [|discriminate].
+  destruct (leader_write pf (r_wrap r) (r_params r) args f) as [| | | |n a'] eqn:Hl; try discriminate.
+  intro H. inversion H; subst a'. clear H.
+  pose proof (find_reg_spec _ _ _ _ Hr) as (Hin & Hk & Hname).
+  pose proof (proj1 (forallb_forall _ _) table_ok r Hin) as Hok.
+  unfold entry_ok in Hok. rewrite Hk in Hok.
+  destruct (guar_write (r_wrap r) (r_params r)) as [g|] eqn:Hg; [|discriminate].
+  destruct (leader_write_spec pf _ _ _ _ _ _ _ Hg Hl) as (_ & (k' & rest' & Ha & Hc) & _).
+  exists n, k', rest'. split; assumption.
+Qed.
+
+Theorem validated_implies_safe_v2 : forall pf ns args f a,
+  proposed_v2 pf ns args f = Some a -> apply_shape pf true a <> APanic.
+Proof.
+  intros pf ns args f a. unfold proposed_v2.
+  destruct args as [|name0 rest0]; [discriminate|].
+  destruct (is_merge_command (lower name0)) eqn:Hm; [discriminate|].
+  destruct (proposed pf ns (name0 :: rest0) f) as [a1|] eqn:Hp; [|discriminate].
+  destruct (proposed_single_shape pf ns (name0 :: rest0) f a1 Hm Hp) as (n & k' & rest & -> & Hc).
+  intro H. inversion H; subst a. clear H.
+  pose proof (validated_implies_safe _ _ _ _ _ Hp) as Hs.
+  unfold apply_shape in *. rewrite Hc. exact Hs.
 Qed.
 
 (* ====================== classification of apply errors ====================== *)
